@@ -30,12 +30,17 @@ theorem pageHdrOf_we (known extra : Fields) (h : extrasOk pageHeader extra = tru
   rw [checkStruct_we h, getInt_we h known 1 (by decide), getInt_we h known 2 (by decide), getInt_we h known 3 (by decide),
     getInt_we h known 4 (by decide), getStruct_we h known 5 (by decide), getStruct_we h known 7 (by decide)]
 
+theorem optLogicalTypeOf_we (known extra : Fields) (h : extrasOk schemaElement extra = true) :
+    optLogicalTypeOf (withExtras known extra) = optLogicalTypeOf known := by
+  unfold optLogicalTypeOf
+  rw [getStruct_we h known 10 (by decide)]
+
 theorem schemaElementOf_we (known extra : Fields) (h : extrasOk schemaElement extra = true) :
     schemaElementOf (withExtras known extra) = schemaElementOf known := by
   unfold schemaElementOf
   rw [checkStruct_we h, getBin_we h known 4 (by decide), getInt_we h known 3 (by decide),
     optNatField_we h _ known 1 (by decide), optNatField_we h _ known 6 (by decide), getInt_we h known 2 (by decide),
-    getInt_we h known 5 (by decide)]
+    getInt_we h known 5 (by decide), optLogicalTypeOf_we known extra h]
 
 theorem columnMetaOf_we (known extra : Fields) (h : extrasOk columnMetaData extra = true) :
     columnMetaOf (withExtras known extra) = columnMetaOf known := by
